@@ -1,6 +1,8 @@
 package parties
 
 import (
+	"io"
+
 	"github.com/Comcast/gots/v2/packet"
 
 	"verif/sim/core"
@@ -16,6 +18,9 @@ type SinkPlan struct {
 	Kind     string `json:"kind,omitempty"`
 	ShortN   int    `json:"short_n,omitempty"`
 	CloseErr bool   `json:"close_err,omitempty"`
+	// As: the error VALUE a failing write returns: "" = a distinct injected error,
+	// "eof" = io.EOF, "ueof" = io.ErrUnexpectedEOF (a sink is free to fail with those)
+	As string `json:"as,omitempty"`
 }
 
 // SimSink is the PacketWriter handed to the adapters. It copies what it is
@@ -26,7 +31,7 @@ type SimSink struct {
 	Log    []packet.Packet
 	Calls  int
 	Closed int
-	Err    *InjectedErr
+	Err    error
 	ctx    *core.Ctx
 }
 
@@ -44,11 +49,11 @@ func (s *SimSink) WritePacket(p *packet.Packet) (int, error) {
 		case "errfull":
 			// fails, yet reports the packet as consumed (the library's own Accumulator does that)
 			s.ctx.Fault("sink_write_err_full_count")
-			s.Err = &InjectedErr{ID: 1000 + i}
+			s.Err = s.errValue(i)
 			return len(p), s.Err
 		default:
 			s.ctx.Fault("sink_write_err")
-			s.Err = &InjectedErr{ID: 1000 + i}
+			s.Err = s.errValue(i)
 			return 0, s.Err
 		}
 	}
@@ -62,4 +67,14 @@ func (s *SimSink) Close() error {
 		return &InjectedErr{ID: 2000}
 	}
 	return nil
+}
+
+func (s *SimSink) errValue(i int) error {
+	switch s.Plan.As {
+	case "eof":
+		return io.EOF
+	case "ueof":
+		return io.ErrUnexpectedEOF
+	}
+	return &InjectedErr{ID: 1000 + i}
 }
